@@ -109,6 +109,61 @@ mut("c15-waitgroup-replaced-by-mutex-counter", [(L, """	var wg sync.WaitGroup
 	mu.Unlock()
 	return ego.Ego()""")], [], ["C15"], note="PRESERVING: extra mutex-protected bookkeeping")
 
+CHAN_FE = """	n := ego.Ego().Count()
+	done := make(chan struct{}, n)
+	for i, item := range ego.val {
+		go func(i int, x any) {
+			function(i, x)
+			done <- struct{}{}
+		}(i, item.getVal())
+	}
+	for k := 0; k < n; k++ {
+		<-done
+	}
+	return ego.Ego()"""
+LFE_FULL = """	var wg sync.WaitGroup
+	step := func(group *sync.WaitGroup, i int, x any) {
+		function(i, x)
+		group.Done()
+	}
+""" + LFE_OLD
+mut("c15-foreach-done-channel", [(L, LFE_FULL, CHAN_FE)], [], ["C15", "C19"], note="PRESERVING: completion signalled through a buffered channel instead of a WaitGroup")
+mut("c15-foreach-done-channel-short", [(L, LFE_FULL, CHAN_FE.replace("for k := 0; k < n; k++ {", "for k := 1; k < n; k++ {"))], ["C15"], note="done channel drained n-1 times: returns before the last callback")
+LMA_FULL = """	var wg sync.WaitGroup
+	var mutex sync.Mutex
+	wg.Add(ego.Ego().Count())
+	result := NewListOf(nil, ego.Ego().Count())
+	step := func(group *sync.WaitGroup, i int, x any) {
+		mutex.Lock()
+		result.Replace(i, function(i, x))
+		mutex.Unlock()
+		group.Done()
+	}
+	for i, item := range ego.val {
+		go step(&wg, i, item.getVal())
+	}
+	wg.Wait()
+	return result"""
+CHAN_MA = """	type pair struct {
+		i int
+		v any
+	}
+	n := ego.Ego().Count()
+	results := make(chan pair)
+	for i, item := range ego.val {
+		go func(i int, x any) {
+			results <- pair{i, function(i, x)}
+		}(i, item.getVal())
+	}
+	result := NewListOf(nil, n)
+	for k := 0; k < n; k++ {
+		p := <-results
+		result.Replace(p.i, p.v)
+	}
+	return result"""
+mut("c15-mapasync-result-channel", [(L, LMA_FULL, CHAN_MA)], [], ["C15", "C09"], note="PRESERVING: results sent over an unbuffered channel and assembled by the caller")
+mut("c15-mapasync-result-channel-closed-early", [(L, LMA_FULL, CHAN_MA.replace("	result := NewListOf(nil, n)\n	for k := 0; k < n; k++ {\n		p := <-results\n		result.Replace(p.i, p.v)\n	}", "	result := NewListOf(nil, n)\n	for k := 0; k < n; k++ {\n		p := <-results\n		result.Replace(p.i, p.v)\n		if k == 5 {\n			break\n		}\n	}"))], ["C15"], note="caller stops collecting after six results: later elements stay nil and workers block forever")
+
 # ---------------------------------------------------------------- C04
 mut("c04-accept-eof-after-string", [(P, """	// No matching rule - error
 	return nil, 0, fmt.Errorf("not a valid JSON - unexpected end of input")
